@@ -168,7 +168,34 @@ VALUES = [None, True, False, 0, 1, -1, 1.0, -0.0, 0.1, 2 ** 63, 2 ** 64 + 1, -(1
           # not JSON-safe
           (1, 2), [1, (2,)], {"a": (1,)}, {1: "x"}, {True: 1}, {None: 0}, {"1": "y", 1: "x"}, {(1, 2): 3}, {1, 2}, b"by",
           [[]], [{}], {"": ""}, 1e-320, 10 ** 20, "true", [None]]
-PREFIXES = ["", "pre", "p:q"]
+PREFIXES = ["", "pre", "p:q", "p", "net", "p:q:r"]
+
+
+def adversarial_lookup_keys(pre, key):
+    """lookup keys in which "<prefix>:" occurs, but not (only) at position 0, and keys around the bare prefix;
+    a source with that prefix must answer None unless the key STARTS with prefix + ":" """
+    return ["x" + pre + ":" + key, "sub" + pre + ":" + key, "other:" + pre + ":" + key, key + ":" + pre + ":" + key,
+            pre + ":" + pre + ":" + key, ":" + pre + ":" + key, pre, pre + ":", pre + key, pre + "::" + key,
+            pre.upper() + ":" + key, pre + ":" + key, pre.split(":")[0] + ":" + key, pre + ":x:" + pre + ":" + key,
+            " " + pre + ":" + key, pre[:-1] + ":" + key, pre + ":" + key + ":" + pre + ":"]
+
+
+def twins(v):
+    """values that are == to v in Python but have another JSON text (bool/int/float), nested too"""
+    out = []
+    if isinstance(v, bool):
+        out = [int(v), float(v)]
+    elif isinstance(v, int):
+        out = [float(v)] + ([bool(v)] if v in (0, 1) else [])
+    elif isinstance(v, float) and v == int(v):
+        out = [int(v)] + ([bool(v)] if v in (0.0, 1.0) else [])
+    elif isinstance(v, list):
+        for i, x in enumerate(v):
+            out += [v[:i] + [y] + v[i + 1:] for y in twins(x)]
+    elif isinstance(v, dict):
+        for k, x in v.items():
+            out += [dict(v, **{k: y}) for y in twins(x)]
+    return out
 LOOKUP_KEYS = ["k", "p:q:k", "pre:k", "p:qk", "p:q:", "p:q", "pre:", "flag", "pre:flag", "p:q:flag", "p:q:k:x", ":k", "prek"]
 URIS = ["/upd/a", "/upd/b?x=1", "/upd/", "/upd", "/other/a", "/upd/a%20b", "/upd/%41", "/upd/a%00", "/upd/%C3%A9",
         "/upd/a/b", "/upd/a?y=%00", "/updx/a", "/upd//", "/UPD/a",
@@ -197,6 +224,13 @@ def handler_pool():
         {"path": "/upd", "action": "set_json_value_from_request_body", "key": "k", "value": None, "cal": None},
         {"path": "/upd", "action": "set_json_value_from_request_body", "key": "flag", "value": None, "cal": ["192.0.2.1"]},
         {"path": "/upd", "action": "set_text_value_from_request_body", "key": "k", "value": None, "cal": None},
+        {"path": "/upd", "action": "set_value", "key": "flag", "value": 1, "cal": None},
+        {"path": "/upd", "action": "set_value", "key": "flag", "value": 0, "cal": None},
+        {"path": "/upd", "action": "set_value", "key": "k", "value": False, "cal": None},
+        {"path": "/upd", "action": "set_value", "key": "k", "value": 1.0, "cal": None},
+        {"path": "/upd", "action": "set_value", "key": "k", "value": [0, 1], "cal": None},
+        {"path": "/upd", "action": "set_value", "key": "flag", "value": {"netboot": True}, "cal": None},
+        {"path": "/upd", "action": "set_value", "key": "k", "value": {"a": [1, {"b": 0.0}]}, "cal": ["192.0.2.1"]},
     ]
 
 
@@ -258,7 +292,8 @@ class C15(Check):
             if rng.random() < 0.4:
                 return ("source", i, "get", rng.choice(syss))
             pre = case["sources"][i][0]
-            lk = rng.choice(LOOKUP_KEYS + [(pre + ":" if pre else "") + rng.choice(keys)] * 6)
+            lk = rng.choice(LOOKUP_KEYS + [(pre + ":" if pre else "") + rng.choice(keys)] * 6
+                            + (rng.sample(adversarial_lookup_keys(pre, rng.choice(keys)), 4) if pre else []))
             return ("source", i, "find", lk, rng.choice(vals))
         i = rng.randrange(2)
         body = rng.choice(BODIES)
@@ -306,6 +341,47 @@ class C15(Check):
             steps += rng.sample(tail, rng.randrange(2, 6))
             case["steps"] = steps[:8]
             yield case
+        # directed: "<prefix>:" somewhere else than at the start of the lookup key, the bare prefix, prefixes of
+        # prefixes; exactly one system holds (key, value), so a wrongly stripped key would be answered
+        for rep in range(2 if tier == "quick" else 12):
+            for pre in PREFIXES[1:]:
+                other = rng.choice([x for x in PREFIXES if x != pre])
+                case = {"stores": [True, True, False], "sources": [(pre, True), (other, True)],
+                        "handlers": [rng.choice(hp), rng.choice(hp)]}
+                key = rng.choice(["k", "mac", "k:x", ""])
+                v = rng.choice([1, "x", [1, 2], None])
+                s = rng.choice(SYS)
+                steps = [("store", rng.randrange(3), "set", s, key, v)]
+                if rng.random() < 0.5:     # the stripped-too-far variants hold the value too
+                    steps.append(("store", rng.randrange(3), "set", rng.choice(SYS), pre + ":" + key, v))
+                lks = adversarial_lookup_keys(pre, key)
+                for lk in rng.sample(lks, 5):
+                    steps.append(("source", rng.randrange(2), "find", lk, v))
+                steps.append(("source", 0, "find", pre + ":" + key, v))
+                case["steps"] = steps
+                yield case
+        # directed: another connection writes a value that is == to the configured value of a set_value handler but
+        # has another JSON text (1 / true / 1.0, nested too); then the POST; the snapshot shows the stored text and
+        # find_systems is asked for both twins
+        for rep in range(2 if tier == "quick" else 10):
+            for h in hp:
+                if h["action"] != "set_value" or dumps_or_none(h["value"]) is None or isinstance(h["value"], tuple):
+                    continue
+                for tw in twins(h["value"]):
+                    if tier == "quick" and rng.random() < 0.4:
+                        continue
+                    case = {"stores": [True, True, False], "sources": [("", True), ("pre", True)], "handlers": [h, rng.choice(hp)]}
+                    s = rng.choice(["a", "b", "node1"])
+                    steps = [("store", rng.randrange(3), "set", s, h["key"], tw),
+                             ("handler", 0, {"method": "POST", "uri": "/upd/" + s, "ip": "192.0.2.1", "clen": "=", "body": b""}),
+                             ("store", rng.randrange(3), "find", h["key"], h["value"]),
+                             ("store", rng.randrange(3), "find", h["key"], tw),
+                             ("source", 0, "find", h["key"], h["value"]),
+                             ("store", rng.randrange(3), "get", s, h["key"])]
+                    if rng.random() < 0.3:
+                        steps.insert(0, ("store", rng.randrange(3), "set", rng.choice(["b", "c"]), h["key"], h["value"]))
+                    case["steps"] = steps
+                    yield case
         # directed: every handler action addressed to a system id that needs percent-encoding; the addressed system
         # and its look-alike both hold data before the request, the snapshots show which rows changed
         for rep in range(1 if tier == "quick" else 6):
